@@ -2,7 +2,7 @@
     in-place update of a present optional flatten along every SEQUENCE of updates. *)
 From ClapModel Require Import Base.Bytes Base.Machine Base.Utf8.
 From ClapModel Require Import Parse.Cmd Parse.Build Parse.Valid Parse.Matcher Parse.Errors Parse.Validator Parse.Parser.
-From ClapModel Require Import Value.ValueBase Value.BoolParseProofs Value.PossibleValues Value.PossibleValuesProofs.
+From ClapModel Require Import Value.ValueBase Value.BoolParse Value.BoolParseProofs Value.PossibleValues Value.PossibleValuesProofs.
 From ClapModel Require Import ParseProofs.TypedInv ParseProofs.TypedView ParseProofs.TypedWide.
 From ClapModel Require Import Derive.DeriveModel Derive.DeriveProofs Derive.DeriveCmd Derive.DeriveArgs Derive.DeriveParse Derive.DeriveUpdate
                               Derive.DeriveEnum Derive.DeriveEnumField Derive.DeriveOptFlatten.
@@ -70,4 +70,30 @@ Theorem optbool_as_flag_refuted :
 Proof.
   exists d_optbool_flag, [DOpt None], [], [DOpt (Some (SvBool false))].
   split; [vm_compute; reflexivity|]. split; [vm_compute; reflexivity|]. discriminate.
+Qed.
+
+(** non-vacuity of [names_disjoint] under [ignore_case] for an enum with two kept variants, one of them hidden *)
+(** two ASCII names that are different up to case cannot both match one string caselessly *)
+Lemma caseless_apart n1 n2 s :
+  is_ascii n1 = true -> is_ascii n2 = true ->
+  map ascii_lower n1 <> map ascii_lower n2 -> fold_str n1 <> fold_str n2 ->
+  eq_ignore_case uni n1 s = true -> eq_ignore_case uni n2 s = true -> False.
+Proof.
+  intros A1 A2 D1 D2 E1 E2. apply eq_ignore_case_spec in E1, E2. unfold caseless_eq, uni in E1, E2.
+  rewrite A1 in E1. rewrite A2 in E2. cbn [andb] in E1, E2. destruct (is_ascii s).
+  - unfold ascii_ci_eq in E1, E2. apply D1. rewrite E1, E2. reflexivity.
+  - apply D2. rewrite E1, E2. reflexivity.
+Qed.
+
+Lemma ex_henum_disjoint_ci : names_disjoint true ex_henum.
+Proof.
+  intros i j pi pj s Hi Hj Mi Mj. apply lits_spec in Hi, Hj.
+  destruct Hi as (v & Hi & Si & ->), Hj as (w & Hj & Sj & ->).
+  unfold pv_matches in Mi, Mj. apply existsb_exists in Mi, Mj.
+  destruct Mi as (a & Ia & Ea), Mj as (b & Ib & Eb).
+  destruct i as [|[|[|i]]]; cbn in Hi; try (destruct i; discriminate Hi); inversion Hi; subst v; try discriminate Si;
+  destruct j as [|[|[|j]]]; cbn in Hj; try (destruct j; discriminate Hj); inversion Hj; subst w; try discriminate Sj;
+  try reflexivity; exfalso; cbn in Ia, Ib;
+  repeat match goal with H : _ \/ _ |- _ => destruct H | H : False |- _ => destruct H end; subst a b;
+  (eapply (caseless_apart _ _ s); [| | | |exact Ea|exact Eb]; vm_compute; try reflexivity; discriminate).
 Qed.
